@@ -6,7 +6,7 @@ import vlib
 from vlib import enc, dec, enc_diff, dec_diff, canon, canon_diff, plain, exc_class
 import gen_json
 
-THEOREMS = ["Nbdime.C02_roundtrip_partial", "Nbdime.C02_roundtrip_intsOnly", "Nbdime.diffAt_generic_roundtrip", "Nbdime.stringsLinewise_roundtrip", "Nbdime.diffDicts_roundtrip",
+THEOREMS = ['Nbdime.C02_empty_diff_only_if_equal', "Nbdime.C02_roundtrip_partial", "Nbdime.C02_roundtrip_intsOnly", "Nbdime.diffAt_generic_roundtrip", "Nbdime.stringsLinewise_roundtrip", "Nbdime.diffDicts_roundtrip",
             "Nbdime.diffLists_single_roundtrip", "Nbdime.multilevel_roundtrip", "Nbdime.snakesML_in", "Nbdime.patchString_lines",
             "Nbdime.diffStringsByChar_ok", "Nbdime.exOracle_ok", "Nbdime.C02_list_roundtrip", "Nbdime.C02_list_roundtrip_strict", "Nbdime.C02_list_roundtrip_pyEq_partial", "Nbdime.C02_pyEq_refuted",
             "Nbdime.C02_seq_roundtrip_partial", "Nbdime.diffFromLcs_eq_dfl", "Nbdime.lcsBack_matching", "Nbdime.patchList_map_toOp", "Nbdime.Abs.patch_dfl",
